@@ -170,6 +170,28 @@ fn pattern_frame(rng: &mut Rng, s: &Snapshot, next_in_order: &mut u32, profile: 
             let d1 = RDatagram { sequence_id: pid_add(p0, 1), channel_id: c1, window_parent_lead: 1, channel_parent_lead: 1, fragment_id: 0, fragment_id_last: 0, data: (0..big).map(|_| rng.u64() as u8).collect() };
             Some(encode(&RFrame::Data { sequence_id, nonce: rng.chance(0.5), datagrams: vec![d0, d1] }))
         }
+        3 => {
+            // "tail first": the first datagram seen of many multi-fragment packets is their last
+            // fragment, a few bytes long; none of the packets is ever completed
+            *class = "tail-first";
+            let sequence_id = next_accepted_frame_id(rng, s, next_in_order, &[1]);
+            let start = rng.below(s.window as u64) as u32;
+            let last: u16 = *rng.pick(&[1u16, 1, 1, 2, 5]);
+            let mut datagrams = Vec::new();
+            let mut size = 10;
+            let mut k = 0u32;
+            loop {
+                let len = rng.below(4) as usize;
+                let d = RDatagram { sequence_id: pid_add(s.rx_packet_base, (start + k) % s.window), channel_id: rng.below(64) as u8, window_parent_lead: 0, channel_parent_lead: 0, fragment_id: last, fragment_id_last: last, data: (0..len).map(|_| rng.u64() as u8).collect() };
+                size += datagram_encoded_size(&d);
+                if size > MAX_FRAME_SIZE || datagrams.len() >= 120 {
+                    break;
+                }
+                datagrams.push(d);
+                k += 1;
+            }
+            Some(encode(&RFrame::Data { sequence_id, nonce: rng.chance(0.5), datagrams }))
+        }
         _ => None,
     }
 }
@@ -316,11 +338,12 @@ pub fn run_session(seed: u64, opts: &HostileOpts, out: &mut ScnOut, verbose: boo
     let alloc_bound = (crate::model::ceil_frag(rx_alloc) as f64 * 1.002) as i64 + 192 * 1024 + (crate::model::ceil_frag(rx_alloc) as i64 / MAX_FRAGMENT_SIZE as i64) / 8 * 2;
 
     let receive_cadence = rng.below(4); // 0: every frame, 1: sometimes, 2: rarely, 3: never steps/receives
-    // receiver-memory sessions: 0 generic mix, 1 ack-group flood, 2 lead confusion
-    let profile = if opts.rx_focus { rng.below(3) } else { 0 };
+    // receiver-memory sessions: 0 generic mix, 1 ack-group flood, 2 lead confusion, 3 tail first
+    let profile = if opts.rx_focus { rng.below(4) } else { 0 };
     out.counters.inc(match profile {
         1 => "sessions_ack_group_flood",
         2 => "sessions_lead_confusion",
+        3 => "sessions_tail_first",
         _ => "sessions_generic_mix",
     });
     let send_p = if opts.rx_focus { 0.0 } else { *rng.pick(&[0.0, 0.1, 0.5]) };
@@ -534,6 +557,196 @@ pub fn run_batch(scn_seed: u64, params: &crate::Params, out: &mut ScnOut, rx_foc
     let verbose = params.flag("verbose");
     for k in 0..n {
         run_session(mix(scn_seed, k), &HostileOpts { frames, rx_focus }, out, verbose);
+        if out.violations.len() > 20 {
+            break;
+        }
+    }
+}
+
+// =============================================================================================
+// C13 under a peer that makes the victim owe many acknowledgements ("ack-storm")
+
+/// The harness is the peer: it acknowledges the victim's data frames honestly after a simulated
+/// round trip (so the victim has an RTT estimate, a send rate and burst credit), and every few
+/// seconds hands it, between two flushes, hundreds to thousands of CRC-valid empty data frames
+/// whose ids lie 33 apart, each of which opens an acknowledgement group of its own. Oracle: the
+/// C13 byte bound over the victim's whole transmission trace.
+pub fn run_ack_storm(seed: u64, out: &mut ScnOut, verbose: bool) {
+    use crate::hcsim::{check_rate_trace, TxEvent, SEC};
+    let mut rng = Rng::new(seed);
+    let window = *rng.pick(&[1024u32, 4096]);
+    let b = *rng.pick(&[20_000u32, 100_000, 500_000]);
+    let me = SideCfg { nonce: rng.u32(), max_send_rate: b, max_receive_rate: u32::MAX, rx_alloc: 1_000_000, keepalive: Some(5000) };
+    let peer = SideCfg { nonce: rng.u32(), max_send_rate: u32::MAX, max_receive_rate: u32::MAX, rx_alloc: 1_000_000, keepalive: None };
+    let rtt_ns = *rng.pick(&[20u64, 60, 150, 400]) * MS;
+    let dt = *rng.pick(&[5u64, 15, 33]) * MS;
+    let load = *rng.pick(&[0.05f64, 0.2, 0.5]);
+    let pkt_len = *rng.pick(&[100usize, 400, 1000]);
+    let storm_every = rng.range(1, 4) * SEC;
+    let storm_size = *rng.pick(&[170usize, 400, 1000, 3000]);
+    let app_flush_p = *rng.pick(&[0.0, 0.3]);
+    let horizon = rng.range(8, 25) * SEC;
+    uv::time::set_virtual_ns(Some(0));
+    uv::rng::set_seed(Some(mix(seed, 79)));
+    let mut hc = guarded(11, || uv::HalfConnection::new(hc_config(&me, &peer, window)));
+    let mut now: u64 = 0;
+    let mut trace: Vec<TxEvent> = Vec::new();
+    let mut due: std::collections::VecDeque<(u64, u32, bool, Option<u32>)> = std::collections::VecDeque::new();
+    let mut next_hostile_id = peer.nonce;
+    let mut next_storm = storm_every;
+    let (mut cur_rtt, mut prev_rtt) = (0.0f64, 0.0f64);
+    let mut last_step = 0u64;
+    let mut steps = 0u64;
+    let mut viol: Vec<Violation> = Vec::new();
+    let mut c = Counters::default();
+    let mut stopped = false;
+    let mut send_credit = 0.0f64;
+    macro_rules! call {
+        ($label:expr, $what:expr, $body:expr) => {{
+            let r = std::panic::catch_unwind(std::panic::AssertUnwindSafe(|| guarded($label, || $body)));
+            alloc::set_tag(alloc::TAG_HARNESS);
+            match r {
+                Ok(v) => Some(v),
+                Err(e) => {
+                    let m = crate::panic_message(&e);
+                    viol.push(Violation::new("C03", "panic", &format!("panic:{}", crate::panic_site(&m)), format!("{} panicked: {} (ack-storm session)", $what, m)));
+                    stopped = true;
+                    None
+                }
+            }
+        }};
+    }
+    while now <= horizon && !stopped {
+        uv::time::set_virtual_ns(Some(now));
+        let step_dt = if steps == 0 { 0 } else { now - last_step };
+        // 1. flush
+        let mut frames: Vec<Vec<u8>> = Vec::new();
+        let owed = hc.verif_ack_queue_len();
+        {
+            let mut sink = VecSink { frames: &mut frames };
+            call!(2, "flush()", hc.flush(&mut sink));
+        }
+        if owed > 161 && cur_rtt > 0.0 {
+            c.inc("flushes_owing_more_than_one_ack_frame");
+        }
+        c.max("max_ack_groups_owed_at_flush", owed as i128);
+        let record = |frames: &Vec<Vec<u8>>, app: bool, rtt_s: f64, trace: &mut Vec<TxEvent>, due: &mut std::collections::VecDeque<(u64, u32, bool, Option<u32>)>| {
+            for f in frames {
+                trace.push(TxEvent { t_ns: now, len: f.len() as u32, rtt_s, step_dt_ns: step_dt, after_app_flush: app });
+                if let Some(RFrame::Data { sequence_id, nonce, datagrams }) = decode(f) {
+                    let last_pid = datagrams.iter().map(|d| d.sequence_id).last();
+                    due.push_back((now + rtt_ns, sequence_id, nonce, last_pid));
+                }
+            }
+        };
+        record(&frames, false, cur_rtt.max(prev_rtt), &mut trace, &mut due);
+        if stopped {
+            break;
+        }
+        // 2. frames from the peer: honest acknowledgements that are due, then possibly a storm
+        let mut groups: Vec<RAckGroup> = Vec::new();
+        let mut fbase = None;
+        let mut pbase = None;
+        while due.front().map_or(false, |d| d.0 <= now) {
+            let (_, seq, nonce, last_pid) = due.pop_front().unwrap();
+            groups.push(RAckGroup { base_id: seq, bitfield: 1, nonce });
+            fbase = Some(seq.wrapping_add(1));
+            if let Some(p) = last_pid {
+                pbase = Some(pid_add(p, 1));
+            }
+            if groups.len() >= 100 {
+                break;
+            }
+        }
+        if let Some(fb) = fbase {
+            let pb = pbase.unwrap_or(hc.verif_tx_packet_ids().0);
+            let bytes = encode(&RFrame::Acks { frame_window_base_id: fb, packet_window_base_id: pb, groups });
+            if let Some(Some(uv::frame::Frame::AckFrame(af))) = call!(9, "Frame::read", uv::frame::Frame::read(&bytes)) {
+                call!(5, "handle_ack_frame", hc.handle_ack_frame(af));
+                c.inc("honest_acks_handed_over");
+            }
+        }
+        if now >= next_storm && !stopped {
+            next_storm = now + storm_every;
+            c.inc("storms");
+            for _ in 0..storm_size {
+                let bytes = encode(&RFrame::Data { sequence_id: next_hostile_id, nonce: rng.chance(0.5), datagrams: Vec::new() });
+                next_hostile_id = next_hostile_id.wrapping_add(33);
+                if let Some(Some(uv::frame::Frame::DataFrame(df))) = call!(9, "Frame::read", uv::frame::Frame::read(&bytes)) {
+                    call!(4, "handle_data_frame", hc.handle_data_frame(df));
+                    c.inc("storm_frames");
+                }
+                if stopped {
+                    break;
+                }
+            }
+        }
+        if stopped {
+            break;
+        }
+        // 3. step, receive
+        call!(1, "step()", hc.step());
+        if stopped {
+            break;
+        }
+        last_step = now;
+        steps += 1;
+        prev_rtt = cur_rtt;
+        cur_rtt = hc.rtt_s().unwrap_or(0.0);
+        {
+            let mut sink = CountSink { n: 0, bytes: 0 };
+            call!(7, "receive()", hc.receive(&mut sink));
+        }
+        // 4. the victim's own modest traffic (it is not backlogged)
+        send_credit += b as f64 * load * dt as f64 / 1e9;
+        while send_credit >= pkt_len as f64 && !stopped && hc.send_buffer_size() < 200_000 {
+            send_credit -= pkt_len as f64;
+            let data = vec![7u8; pkt_len].into_boxed_slice();
+            call!(3, "send()", hc.send(data, 0, uflow::SendMode::Reliable));
+            c.inc("victim_packets");
+        }
+        if rng.chance(app_flush_p) && !stopped {
+            let mut frames: Vec<Vec<u8>> = Vec::new();
+            {
+                let mut sink = VecSink { frames: &mut frames };
+                call!(2, "flush()", hc.flush(&mut sink));
+            }
+            record(&frames, true, cur_rtt.max(prev_rtt), &mut trace, &mut due);
+        }
+        now += dt;
+    }
+    if verbose {
+        eprintln!("ack-storm: B={} rtt={}ms dt={}ms storm {} every {}ms: {} tx events, rtt now {:?}", b, rtt_ns / MS, dt / MS, storm_size, storm_every / MS, trace.len(), hc.rtt_s());
+    }
+    let ack_bytes: u64 = trace.iter().map(|e| e.len as u64).sum();
+    c.add("victim_bytes_on_wire", ack_bytes as i128);
+    if !stopped {
+        check_rate_trace(0, b as f64, &trace, &mut c, &mut viol);
+    }
+    let _ = std::panic::catch_unwind(std::panic::AssertUnwindSafe(|| guarded(11, || drop(hc))));
+    alloc::set_tag(alloc::TAG_HARNESS);
+    let _ = alloc::take_violations();
+    uv::time::set_virtual_ns(None);
+    uv::rng::set_seed(None);
+    out.evals += 1;
+    if c.get("flushes_owing_more_than_one_ack_frame") >= 1 && c.get("honest_acks_handed_over") >= 5 {
+        out.nontrivial += 1;
+        out.sigs.push(mix(seed, c.get("rate_events") as u64 ^ (c.get("max_ack_groups_owed_at_flush") as u64) << 32));
+    }
+    for (k, v) in c.items {
+        if k.starts_with("max_") {
+            out.counters.max(&k, v);
+        } else {
+            out.counters.add(&k, v);
+        }
+    }
+    out.violations.extend(viol);
+}
+
+pub fn run_ack_storm_batch(scn_seed: u64, params: &crate::Params, out: &mut ScnOut) {
+    let n = params.u64("batch", 4);
+    for k in 0..n {
+        run_ack_storm(mix(scn_seed, k), out, params.flag("verbose"));
         if out.violations.len() > 20 {
             break;
         }
